@@ -270,6 +270,12 @@ def _run_helpers(case, ctx):
     y0 = round(r.uniform(0.1, 0.9), 2)
     fr = [y0, round(1 - y0, 2)]
     pressures = [round(gen.log_uniform(r, 0.05, 20), 4) for _ in range(4)]
+    ptype = r.choice(["float-list", "float-list", "int-list", "int-array", "float-array"])
+    if ptype.startswith("int"):
+        pressures = sorted(r.sample(range(1, 25), 4))
+    if ptype.endswith("array"):
+        pressures = numpy.array(pressures)
+    ctx.count("svp_pressure_types", ptype)
     sv = _call(pgiast.iast_binary_svp, isos, fr, pressures, warningoff=True)
     ctx.case(["svp", case["seed"]])
     if sv[0] == "ok":
